@@ -185,3 +185,240 @@ Proof.
   - by apply remove_conflict_ok.
   - by eapply remove_conflict_absent.
 Qed.
+
+(** * 2. One publish attempt refines the specification *)
+
+Definition branch (cfg : pcfg) (a : answer) (notify_ok : bool) : action :=
+  if notify_ok then cfg_class cfg a else cfg_notify cfg.
+
+Definition result_of (act : action) : presult := if act_error act then PError else PSuccess.
+
+Section publish.
+  Context (U : gmap N tx) (Hwf : wf_universe U = true).
+  Local Notation rm := (remove_unconf_with_descendants U).
+
+  Lemma event_ok_seen_lookup (F : facts) (t : N) :
+    event_ok U F (Seen t) = true → ∃ x, U !! t = Some x ∧ t_coinbase x = false.
+  Proof.
+    simpl. destruct (U !! t) as [x|]; [|done]. intros H%andb_true_iff. destruct H as [H _].
+    exists x. split; [done|]. by apply negb_true_iff.
+  Qed.
+
+  (** [addRelevantTx] with a nil block *)
+  Lemma apply_seen_ok (s : store) (F : facts) (t : N) (x : tx) :
+    Inv U s F → U !! t = Some x → event_ok U F (Seen t) = true →
+    Inv U (apply_seen U x s) (spec_seen U F t).
+  Proof.
+    intros HI Hx Hok.
+    pose proof (step_preserves_seen U t {| st := s; clock := 0 |} {| fs := F; sclock := 0 |}
+                  Hwf HI eq_refl Hok) as H.
+    cbn [step st clock] in H. rewrite Hx in H. cbn in H. tauto.
+  Qed.
+
+  Lemma finish_ok (act : action) (s : store) (F : facts) (t : N) :
+    Inv U s F → is_Some (U !! t) →
+    ∃ s', finish act U t s = (result_of act, s') ∧ Inv U s' (spec_finish act U F t).
+  Proof.
+    intros HI Ht. unfold finish, spec_finish, result_of. destruct (act_removes act).
+    - destruct (remove_unmined_tx_ok U s F t Hwf HI Ht) as (s' & -> & HI'). by exists s'.
+    - by exists s.
+  Qed.
+
+  (** every configuration: the store after the attempt satisfies the invariant
+      for the facts that this configuration establishes, and the result is the
+      one of the branch taken; the fuel never runs out *)
+  Lemma publish_ok (cfg : pcfg) (s : store) (F : facts) (t : N) (a : answer) (ok : bool) :
+    Inv U s F → event_ok U F (Seen t) = true →
+    ∃ s', publish cfg U t a ok s = (result_of (branch cfg a ok), s') ∧
+          Inv U s' (spec_publish_cfg cfg U F t a ok).
+  Proof.
+    intros HI Hok. destruct (event_ok_seen_lookup F t Hok) as (x & Hx & _).
+    pose proof (apply_seen_ok s F t x HI Hx Hok) as HI1.
+    unfold publish, spec_publish_cfg, branch, publish_tx. rewrite Hx. cbv zeta.
+    destruct ok; apply finish_ok; try done; by rewrite Hx.
+  Qed.
+
+  (** ** Facts after a failed attempt *)
+
+  (** a fresh transaction that is recorded and removed again leaves the facts
+      as they were *)
+  Lemma fresh_spec (F : facts) (t : N) :
+    fresh U F t = true ↔ known F t = false ∧ ∀ c, c ∈ f_unconf F → spends_output_of U c t = false.
+  Proof.
+    unfold fresh. rewrite andb_true_iff, negb_true_iff, forallb_forall. split.
+    - intros [Hk Hf]. split; [done|]. intros c Hc. apply negb_true_iff, Hf.
+      by apply elem_of_list_In, elem_of_elements.
+    - intros [Hk Hf]. split; [done|]. intros c Hc%elem_of_list_In%elem_of_elements.
+      by apply negb_true_iff, Hf.
+  Qed.
+
+  Lemma known_false (F : facts) (t : N) :
+    known F t = false ↔ f_conf F !! t = None ∧ t ∉ f_unconf F.
+  Proof.
+    unfold known. rewrite orb_false_iff, !bool_decide_eq_false. split.
+    - intros [H1 H2]. split; [|done]. destruct (f_conf F !! t) eqn:E; [|done]. destruct H1. by eexists.
+    - intros [-> H2]. split; [|done]. by intros [? ?].
+  Qed.
+
+  Lemma spec_seen_new (F : facts) (t : N) :
+    known F t = false →
+    spec_seen U F t = {| f_conf := f_conf F; f_unconf := {[t]} ∪ f_unconf F; f_leases := f_leases F |}.
+  Proof. unfold spec_seen. by intros ->. Qed.
+
+  Lemma spec_seen_known (F : facts) (t : N) : known F t = true → spec_seen U F t = F.
+  Proof. unfold spec_seen. by intros ->. Qed.
+
+  Lemma abandon_fresh (F : facts) (t : N) :
+    fresh U F t = true → spec_abandon U (spec_seen U F t) t = F.
+  Proof.
+    intros [Hk Hf]%fresh_spec. rewrite (spec_seen_new F t Hk). unfold spec_abandon.
+    apply known_false in Hk as [Hc Hu].
+    set (F1 := {| f_conf := f_conf F; f_unconf := {[t]} ∪ f_unconf F; f_leases := f_leases F |}).
+    assert (Hdep : ∀ c, depends_on U F1 [t] c → c = t).
+    { induction 1 as [r Hr|p c Hp IHp Hc1 Hsp]; [by apply elem_of_list_singleton in Hr|].
+      subst p. simpl in Hc1. apply elem_of_union in Hc1 as [Hc1|Hc1]; [by apply elem_of_singleton in Hc1|].
+      rewrite (Hf c Hc1) in Hsp. done. }
+    apply facts_eq; [done| |done]. apply leibniz_equiv. intros c.
+    rewrite rm_unconf_elem. simpl. rewrite elem_of_union, elem_of_singleton. split.
+    - intros [[->|Hc1] Hn]; [|done]. exfalso. apply Hn, dep_root. by left.
+    - intros Hc1. split; [by right|]. intros Hd. apply Hdep in Hd as ->. done.
+  Qed.
+
+  (** ** Same facts, same observables *)
+
+  Definition same_observables (s s' : store) (F : facts) : Prop :=
+    (∀ minconf sync now, 0 <= minconf → (∀ t h b, f_conf F !! t = Some (h, b) → h <= sync) →
+       balance U s' minconf sync now = balance U s minconf sync now) ∧
+    (∀ now, unspent_outputs U s' now ≡ₚ unspent_outputs U s now) ∧
+    unmined_hashes s' ≡ₚ unmined_hashes s.
+
+  Lemma same_facts_same_observables (s s' : store) (F : facts) :
+    Inv U s F → Inv U s' F → same_observables s s' F.
+  Proof.
+    intros HI HI'. split; [|split].
+    - intros minconf sync now Hm Hs.
+      rewrite (balance_correct U s' F minconf sync now Hwf HI' Hm Hs).
+      by rewrite (balance_correct U s F minconf sync now Hwf HI Hm Hs).
+    - intros now. rewrite (utxos_correct U s' F now Hwf HI'). symmetry. by apply utxos_correct.
+    - rewrite (unmined_hashes_perm U s' F HI'). symmetry. by apply (unmined_hashes_perm U s F).
+  Qed.
+
+  (** (a) A failed attempt (a branch that removes and returns the error) on a
+      fresh transaction: error, invariant for the SAME facts, hence every
+      balance, the spendable set and the unconfirmed set are the pre-attempt
+      ones. *)
+  Theorem failed_attempt_no_trace (cfg : pcfg) (s : store) (F : facts) (t : N) (a : answer) (ok : bool) :
+    branch cfg a ok = drop_err →
+    Inv U s F → event_ok U F (Seen t) = true → fresh U F t = true →
+    ∃ s', publish cfg U t a ok s = (PError, s') ∧ Inv U s' F ∧ same_observables s s' F.
+  Proof.
+    intros Hb HI Hok Hfr.
+    destruct (publish_ok cfg s F t a ok HI Hok) as (s' & Hp & HI').
+    rewrite Hb in Hp. exists s'. split; [done|].
+    assert (HF : spec_publish_cfg cfg U F t a ok = F).
+    { unfold spec_publish_cfg. unfold branch in Hb. destruct ok; rewrite Hb; simpl; by apply abandon_fresh. }
+    rewrite HF in HI'. split; [done|]. by apply same_facts_same_observables.
+  Qed.
+
+  (** (c) already known / already confirmed on a fresh transaction: the same,
+      but the call reports success *)
+  Theorem known_answer_no_trace (cfg : pcfg) (s : store) (F : facts) (t : N) (a : answer) :
+    cfg_class cfg a = drop_ok →
+    Inv U s F → event_ok U F (Seen t) = true → fresh U F t = true →
+    ∃ s', publish cfg U t a true s = (PSuccess, s') ∧ Inv U s' F ∧ same_observables s s' F.
+  Proof.
+    intros Hb HI Hok Hfr.
+    destruct (publish_ok cfg s F t a true HI Hok) as (s' & Hp & HI').
+    unfold branch in Hp. rewrite Hb in Hp. exists s'. split; [done|].
+    assert (HF : spec_publish_cfg cfg U F t a true = F).
+    { unfold spec_publish_cfg. rewrite Hb. simpl. by apply abandon_fresh. }
+    rewrite HF in HI'. split; [done|]. by apply same_facts_same_observables.
+  Qed.
+
+  (** each outpoint is listed at most once in the spendable set *)
+  Lemma NoDup_unspent_ops (s : store) (F : facts) (now : Z) :
+    Inv U s F → NoDup (u_op <$> unspent_outputs U s now).
+  Proof.
+    intros HI. apply NoDup_fmap_2_strong; [|by eapply NoDup_unspent_outputs].
+    intros u1 u2 H1 H2 Heq.
+    apply (elem_of_unspent_outputs U s F Hwf HI) in H1 as (t1 & i1 & c1 & Hin1 & _ & _ & ->).
+    apply (elem_of_unspent_outputs U s F Hwf HI) in H2 as (t2 & i2 & c2 & Hin2 & _ & _ & ->).
+    rewrite !mk_utxo_op in Heq. injection Heq as Hid ->.
+    apply (elem_of_credited_outputs U F Hwf) in Hin1 as (_ & Hx1 & _).
+    apply (elem_of_credited_outputs U F Hwf) in Hin2 as (_ & Hx2 & _).
+    rewrite Hid in Hx1. rewrite Hx1 in Hx2. by injection Hx2 as ->.
+  Qed.
+
+  (** (b) accepted / already in the backend's mempool: success, the
+      transaction is recorded as unconfirmed - exactly once - next to what was
+      there, and balances and spendable set are those of the ledger with the
+      transaction known (each outpoint at most once). *)
+  Theorem mempool_tx_recorded_once (cfg : pcfg) (s : store) (F : facts) (t : N) (a : answer) :
+    cfg_class cfg a = keep_ok →
+    Inv U s F → event_ok U F (Seen t) = true →
+    ∃ s', publish cfg U t a true s = (PSuccess, s') ∧ Inv U s' (spec_seen U F t) ∧
+          (known F t = false →
+             unmined_hashes s' ≡ₚ t :: elements (f_unconf F) ∧ NoDup (unmined_hashes s') ∧
+             t ∈ unmined_hashes s') ∧
+          (∀ now, NoDup (u_op <$> unspent_outputs U s' now) ∧
+                  unspent_outputs U s' now ≡ₚ spec_utxos U (spec_seen U F t) now) ∧
+          (∀ minconf sync now, 0 <= minconf → (∀ c h b, f_conf F !! c = Some (h, b) → h <= sync) →
+             balance U s' minconf sync now = spec_balance U (spec_seen U F t) minconf sync now).
+  Proof.
+    intros Hb HI Hok.
+    destruct (publish_ok cfg s F t a true HI Hok) as (s' & Hp & HI').
+    unfold branch in Hp. rewrite Hb in Hp. exists s'. split; [done|].
+    unfold spec_publish_cfg in HI'. rewrite Hb in HI'. simpl in HI'.
+    split; [done|]. split; [|split].
+    - intros Hk.
+      assert (Hperm : unmined_hashes s' ≡ₚ t :: elements (f_unconf F)).
+      { rewrite (unmined_hashes_perm U s' _ HI'), (spec_seen_new F t Hk). simpl.
+        apply elements_union_singleton. by apply known_false in Hk as [_ ?]. }
+      split; [done|]. split.
+      + rewrite Hperm. apply NoDup_cons. split; [|apply NoDup_elements].
+        rewrite elem_of_elements. by apply known_false in Hk as [_ ?].
+      + rewrite Hperm. by left.
+    - intros now. split; [by eapply NoDup_unspent_ops|by apply utxos_correct].
+    - intros minconf sync now Hm Hs. apply balance_correct; try done.
+      intros c h b. unfold spec_seen. destruct (known F t); simpl; apply Hs.
+  Qed.
+
+  (** (d) a failed re-broadcast of a transaction that is ALREADY recorded as
+      unconfirmed forgets it together with every unconfirmed transaction that
+      (transitively) spends its outputs; the other ones stay. *)
+  Theorem failed_rebroadcast_forgets_descendants (cfg : pcfg) (s : store) (F : facts) (t : N)
+          (a : answer) (ok : bool) :
+    act_removes (branch cfg a ok) = true →
+    Inv U s F → t ∈ f_unconf F →
+    ∃ s', publish cfg U t a ok s = (result_of (branch cfg a ok), s') ∧
+          Inv U s' (spec_abandon U F t) ∧
+          t ∉ f_unconf (spec_abandon U F t) ∧
+          (∀ c, depends_on U F [t] c → c ∉ f_unconf (spec_abandon U F t)) ∧
+          (∀ c, c ∈ f_unconf F → ¬ depends_on U F [t] c → c ∈ f_unconf (spec_abandon U F t)) ∧
+          f_conf (spec_abandon U F t) = f_conf F ∧ f_leases (spec_abandon U F t) = f_leases F.
+  Proof.
+    intros Hb HI Ht.
+    assert (Hk : known F t = true).
+    { unfold known. rewrite (bool_decide_eq_true_2 (t ∈ f_unconf F)) by done. apply orb_true_r. }
+    assert (Hok : event_ok U F (Seen t) = true).
+    { simpl. destruct (fw_in_universe U F (inv_wf U s F HI) t (or_intror Ht)) as [x Hx]. rewrite Hx, Hk.
+      pose proof (fw_coinbase_confirmed U F (inv_wf U s F HI) t Ht) as Hcb.
+      unfold is_coinbase in Hcb. rewrite Hx in Hcb. by rewrite Hcb. }
+    destruct (publish_ok cfg s F t a ok HI Hok) as (s' & Hp & HI').
+    exists s'. split; [done|].
+    assert (HF : spec_publish_cfg cfg U F t a ok = spec_abandon U F t).
+    { unfold spec_publish_cfg. rewrite (spec_seen_known F t Hk). unfold branch in Hb.
+      unfold spec_finish. destruct ok; by rewrite Hb. }
+    rewrite HF in HI'. split; [done|]. unfold spec_abandon. split; [|split; [|split]].
+    - apply rm_roots_gone. by left.
+    - intros c Hd Hin. by apply rm_unconf_elem in Hin as [_ Hn].
+    - intros c Hc Hn. by apply rm_unconf_elem.
+    - done.
+  Qed.
+
+  (** the facts of the property text and of the expected configuration agree *)
+  Lemma spec_publish_expected (F : facts) (t : N) (a : answer) (ok : bool) :
+    spec_publish_cfg expected_cfg U F t a ok = spec_publish U F t a ok ∧
+    result_of (branch expected_cfg a ok) = expected_result a ok.
+  Proof. by destruct a, ok. Qed.
+End publish.
